@@ -71,13 +71,25 @@ class FakeSock:
     PIECE = 700        # send() accepts at most this many bytes per call (a nearly full socket buffer)
     on_write = None    # hook: another thread of the node wants to send on this connection right now
 
+    fail_at = None     # index of the write call that runs into the send time-out (the peer stopped reading)
+    fail_part = 0.0    # fraction of that call's data that still went out
+    nwrite = 0
+
+    def _fault(self, b):
+        self.nwrite += 1
+        if self.fail_at is not None and self.nwrite - 1 == self.fail_at:
+            self.out.append(bytes(b[:int(len(b) * self.fail_part)]))
+            raise _socket.timeout('timed out')
+
     def sendall(self, b):
+        self._fault(b)
         self.out.append(bytes(b))
         if self.on_write:
             self.on_write()
 
     def send(self, b):
         """like socket.send: may take only a part of the data and says how much"""
+        self._fault(b)
         n = min(len(b), self.PIECE)
         self.out.append(bytes(b[:n]))
         if self.on_write:
@@ -157,6 +169,35 @@ class World:
         self.r.count('runs')
         errs = [x for x in self.server.log.records if x[0] in ('error', 'exception', 'critical')]
         return b''.join(fs.out), errs, fs.chunks
+
+    # ---------------------------------------------------------------- the peer stops reading
+    def run_send_timeout(self, rng):
+        """a write on the socket runs into the send time-out (the peer does not read, the buffer is full) after a part of
+        the data went out: whatever the node does then, the peer must never see anything but a prefix of the fault-free
+        output - no reply left out, no line glued to a truncated one (differential oracle against the run without fault)"""
+        r = self.r
+        lines = [rng.choice(self.VALID) for _ in range(rng.randint(2, 7))] + [b'ping last']
+        stream = b'\n'.join(lines) + b'\n'
+        clean, errs, _ = self.run([stream])
+        nwrites = max(1, clean.count(b'\n'))
+        self.restore()
+        del self.server.log.records[:]
+        fs = FakeSock([stream])
+        fs.fail_at = rng.randrange(nwrites)
+        fs.fail_part = rng.choice([0.0, 0.0, 0.3, 0.9, 1.0])
+        buf = io.StringIO()
+        with contextlib.redirect_stdout(buf):
+            self.Handler(fs, ('127.0.0.1', 7), self.server)
+        out = b''.join(fs.out)
+        r.count('send_timeout_runs')
+        r.case(('send-timeout', len(lines), fs.fail_part), True)
+        case = {'sub': 'send-timeout', 'stream': stream.decode('latin1'), 'fail_at': fs.fail_at, 'fail_part': fs.fail_part, 'output_tail': out[-200:].decode('latin1')}
+        if fs.nwrite <= fs.fail_at:
+            r.count('send_timeout_not_reached')
+            return
+        if not clean.startswith(out):
+            r.violation('C07/output-continues-after-send-timeout', f'write {fs.fail_at} timed out after {fs.fail_part:.0%} of its data; the peer saw {len(out)} bytes '
+                        f'that are not a prefix of the {len(clean)} bytes of the fault-free output', case)
 
     # ---------------------------------------------------------------- concurrent senders on one connection
     def run_concurrent_send(self, rng):
@@ -513,6 +554,8 @@ def run_shard(shard):
         r.count('exhaustive_short_streams', 0)
     for _ in range(12 if shard.get('tier') == 'quick' else 400):
         w.run_concurrent_send(rng)
+    for _ in range(30 if shard.get('tier') == 'quick' else 1500):
+        w.run_send_timeout(rng)
     w.run_codec(rng, 2000)
     return r.result()
 
